@@ -518,6 +518,8 @@ def execute(plan, prop, out, tr):
                 except Exception:
                     finite = False
             big = max([float(p_.detach().abs().max()) for p_ in model.plist() if p_.numel()] + [0.0])
+            if solver.rec and not (bool(torch.isfinite(solver.rec[-1]["A"]).all()) and bool(torch.isfinite(solver.rec[-1]["b"]).all())):
+                finite = False          # the linear system handed to the solver already held inf / NaN
             if not finite or not math.isfinite(big) or big > 1e6:
                 # accept-everything configurations (reject=0, tiny damping) can run away to 1e12 rad rotations, where
                 # float32 Jacobians overflow to NaN and modjac's own assertion fires: a diverged run has no verdict
